@@ -434,7 +434,11 @@ def replay(payload: dict) -> int:
     elif kind == "wrong" and status == "ok":
         a, b, bad = exact_values(g, gamma, delta, expr, payload["env"], params_from_json(payload["params"]))
         print(f"expression value {a}, P(gamma | delta) = {b}")
+    elif kind == "vocabulary" and status == "ok":
+        model = SymL3(g)
+        chk = check_output(g, gamma, delta, expr, model, Denoter(model, vocab=c07.single_world_vocab(g.nodes)), 30000)
+        bad = chk["violation"] is not None and chk["violation"]["kind"] == "vocabulary"
     else:
-        bad = status == "ok" and kind == "vocabulary"
+        bad = False
     print("reproduced" if bad else "not reproduced")
     return 1 if bad else 0
